@@ -91,7 +91,21 @@ class SequenceBasedRoutingProblem(RoutingProblem):
 
     def set_depot(self, depot_name):
         """Take node named `depot_name` and move to first position in list"""
+        moved = self.node_names.index(depot_name) != 0
         super().set_depot(depot_name)
+        if self.strict and moved:
+            # The strict timing rule exempts arcs that leave the depot. Another node
+            # has just become the depot: check the stored arcs again with the rule for
+            # their new positions (as the constructor does for the arcs of a given graph)
+            old_arcs = self.arcs
+            self.vrptw.arcs = dict()
+            for arc in old_arcs.values():
+                self.add_arc(
+                    arc.origin.name,
+                    arc.destination.name,
+                    arc.travel_time,
+                    arc.cost
+                )
         # Since we treat the depot as absorbing
         # (see build_objective_quadratic_constraints)
         # We should allow Depot - Depot moves
